@@ -130,6 +130,14 @@ def _do_job(job, mods):
             return {'indptr': [int(x) for x in indptr], 'indices': [int(x) for x in indices], 'data': _bits32(data),
                     'fluid0': _bits32(fluid0), 'damping': _bits32([damping])[0], 'tol': _bits32([np.float32(job['tol'])])[0],
                     'scores': _bits32(scores), 'fluid': _bits32(fluid)}
+        if kind == 'push':
+            a = csr_of(job['graph'])
+            n = a.shape[0]
+            _, seeds, _ = mods['get_adjacency_values'](a, values=py_weights(job['weights']), default_value=0, which='probs')
+            deg = a.dot(np.ones(n)).astype(np.int32)
+            s = mods['PageRank'](damping_factor=job['damping'], solver='push', tol=job['tol']).fit_predict(a, py_weights(job['weights']))
+            return {'scores': [float(x) for x in s], 'deg': [int(x) for x in deg],
+                    'seeds': [float(x) for x in seeds.astype(np.float32)]}
         if kind == 'katz':
             a = csr_of(job['graph'])
             s = mods['Katz'](damping_factor=job['damping'], path_length=job['path_length']).fit_predict(a)
@@ -246,7 +254,7 @@ def spec_eps(solver, a, n, tol, contract=None):
         res = max(tol, 1e-5 * (1 - a))
         return F64_TOL + 4 * math.sqrt(n) * res / (1 - a) ** 2
     if solver in ('diteration', 'push'):
-        return F32_TOL * max(1.0, n / 4.0) + 2 * tol
+        return F32_TOL * max(1.0, n / 4.0) + 2 * tol / (1 - a)      # diteration_error: residu < tol (1-a) at the stop
     raise ValueError(solver)
 
 
@@ -306,9 +314,9 @@ def pagerank_graphs(ctx):
             if es:
                 out.append(('exh%d' % n, mk(n, es, [rng.choice([1, 1, 2]) for _ in es])))
     g4 = [es for es in all_digraphs(4) if es]
-    for es in rng.sample(g4, 60 if quick else 600):
+    for es in rng.sample(g4, 40 if quick else 600):
         out.append(('exh4', mk(4, es, [rng.choice(WEIGHT_CHOICES) for _ in es])))
-    for name, n, es, w in graphs.suite(rng, 56 if quick else 420, 3, 10, weights=WEIGHT_CHOICES):
+    for name, n, es, w in graphs.suite(rng, 42 if quick else 420, 3, 10, weights=WEIGHT_CHOICES):
         if not es:
             continue
         a = mk(n, es, w)
@@ -346,7 +354,10 @@ def pagerank_plan(ctx):
         ctx.count('pagerank-graph-with-sink' if has_sink else 'pagerank-graph-without-sink')
         ds = rng.sample(dampings, 2 if quick else 3)
         for d in ds:
-            for w in weights_variants(rng, a, 3 if quick else 4):
+            ws = weights_variants(rng, a, 3 if quick else 4)
+            if quick:
+                ws = [ws[0], rng.choice(ws[1:])] if rng.random() < 0.5 else ws[1:]
+            for w in ws:
                 for solver in SOLVERS:
                     if solver == 'push' and rng.random() < 0.8:
                         continue            # wrong on every input (F-push): a sample is enough
@@ -559,27 +570,278 @@ def eval_pagerank(ctx, plan, threads_compiled):
 
 
 # ------------------------------------------------------------------------------------------------
+# Katz, closeness, betweenness, HITS
+# ------------------------------------------------------------------------------------------------
+def all_undirected(n):
+    slots = [(i, j) for i in range(n) for j in range(i + 1, n)]
+    for bits in range(1 << len(slots)):
+        es = []
+        for k in range(len(slots)):
+            if bits >> k & 1:
+                i, j = slots[k]
+                es += [(i, j), (j, i)]
+        yield es
+
+
+def weakly_connected(n, es):
+    adj = {i: set() for i in range(n)}
+    for i, j in es:
+        adj[i].add(j)
+        adj[j].add(i)
+    seen = {0}
+    todo = [0]
+    while todo:
+        u = todo.pop()
+        for v in adj[u]:
+            if v not in seen:
+                seen.add(v)
+                todo.append(v)
+    return len(seen) == n
+
+
+def is_symmetric_edges(es):
+    s = set(es)
+    return all((j, i) in s for i, j in s)
+
+
+def connect(rng, n, es, directed):
+    """add edges until the graph is weakly connected"""
+    es = list(es)
+    while not weakly_connected(n, es):
+        i, j = rng.sample(range(n), 2)
+        es.append((i, j))
+        if not directed:
+            es.append((j, i))
+    return sorted(set(es))
+
+
+def other_plan(ctx):
+    from vlib import graphs
+    rng = ctx.rng
+    quick = ctx.quick
+    plan = []
+    # ---- Katz: any non-empty square matrix
+    kg = []
+    for n in (1, 2):
+        kg += [(n, es) for es in all_digraphs(n, loops=True) if es]
+    g3 = [es for es in all_digraphs(3) if es]
+    kg += [(3, es) for es in (rng.sample(g3, 30) if quick else g3)]
+    g3l = [es for es in all_digraphs(3, loops=True) if es]
+    kg += [(3, es) for es in rng.sample(g3l, 12 if quick else 150)]
+    g4 = [es for es in all_digraphs(4) if es]
+    kg += [(4, es) for es in rng.sample(g4, 25 if quick else 400)]
+    for name, n, es, w in graphs.suite(rng, 28 if quick else 280, 3, 9, weights=WEIGHT_CHOICES):
+        if es:
+            kg.append((n, es))
+    for n, es in kg:
+        a = mk(n, es, [rng.choice(WEIGHT_CHOICES + [-1]) for _ in es])   # values are irrelevant: astype(bool)
+        for _ in range(1 if quick else 2):
+            plan.append({'kind': 'katz', 'graph': gdesc(a), 'damping': rng.choice([0.5, 0.25, 1.0, 2.0, 0.3, 0.75]),
+                         'path_length': rng.choice([0, 1, 2, 3, 4, 6])})
+    # ---- closeness: weakly connected digraphs / undirected graphs, n >= 2 (+ a few disconnected: ValueError)
+    cg = []
+    for n in (2, 3):
+        cg += [(n, es) for es in all_digraphs(n) if es]
+    g4c = [es for es in all_digraphs(4) if es and weakly_connected(4, es)]
+    cg += [(4, es) for es in rng.sample(g4c, 40 if quick else 600)]
+    for name, n, es, w in graphs.suite(rng, 28 if quick else 280, 3, 10):
+        directed = not is_symmetric_edges(es)
+        if rng.random() < 0.85:
+            es = connect(rng, n, es, directed)
+        if es:
+            cg.append((n, es))
+    for n, es in cg:
+        plan.append({'kind': 'closeness', 'graph': gdesc(mk(n, es, [rng.choice(WEIGHT_CHOICES) for _ in es]))})
+    # ---- betweenness: connected undirected graphs exhaustively to n = 4, sampled n = 5, structured; directed sample
+    bg = []
+    for n in (2, 3, 4):
+        bg += [(n, es) for es in all_undirected(n) if es]
+    g5 = [es for es in all_undirected(5) if es and weakly_connected(5, es)]
+    bg += [(5, es) for es in rng.sample(g5, 40 if quick else 500)]
+    for name, n, es, w in graphs.suite(rng, 20 if quick else 200, 3, 10, directed_ok=False):
+        if rng.random() < 0.9:
+            es = connect(rng, n, es, False)
+        if es:
+            bg.append((n, es))
+    for n, es in bg:
+        plan.append({'kind': 'betweenness', 'graph': gdesc(mk(n, es)), 'directed': False})
+    dg = [es for es in all_digraphs(3) if es and weakly_connected(3, es) and not is_symmetric_edges(es)]
+    for es in rng.sample(dg, 12 if quick else len(dg)):
+        plan.append({'kind': 'betweenness', 'graph': gdesc(mk(3, es)), 'directed': True})
+    g4d = [es for es in g4c if not is_symmetric_edges(es)]
+    for es in rng.sample(g4d, 12 if quick else 300):
+        plan.append({'kind': 'betweenness', 'graph': gdesc(mk(4, es)), 'directed': True})
+    # ---- restart weights -> distribution (get_adjacency_values, which='probs'), including the refusals
+    for n, es in rng.sample(kg, min(len(kg), 40 if quick else 300)):
+        a = mk(n, es)
+        ws = weights_variants(rng, a, 4)
+        ws.append({'kind': 'arr', 'vals': [1.0] * (n + 1)})                       # wrong length: ValueError
+        ws.append({'kind': 'dict', 'keys': [0, n + rng.randint(0, 2)], 'vals': [1.0, 2.0]})   # key out of range: IndexError
+        ws.append({'kind': 'arr', 'vals': [0.0] * n})                             # null weights: left as they are
+        ws.append({'kind': 'dict', 'keys': [rng.randrange(n)], 'vals': [0.0]})
+        for w in rng.sample(ws, 3):
+            plan.append({'kind': 'values', 'graph': gdesc(a), 'weights': w})
+    # ---- push kernel as written (integer weights >= 1: the int32-cast degrees stay positive), model vs code
+    for n, es in rng.sample([x for x in kg if x[0] <= 8], 30 if quick else 250):
+        a = mk(n, es, [float(rng.choice([1, 1, 2, 3])) for _ in es])
+        for w in weights_variants(rng, a, 2):
+            plan.append({'kind': 'push', 'graph': gdesc(a), 'damping': rng.choice([0.5, 0.75, 0.25, 0.875]), 'weights': w,
+                         'tol': rng.choice([0.125, 0.015625, 0.0009765625])})
+    # ---- HITS: small rectangular and square non-negative matrices
+    for _ in range(40 if quick else 400):
+        nr, nc = rng.randint(2, 6), rng.randint(2, 6)
+        dense = np.array([[rng.choice([0, 0, 1, 1, 2, 3]) for _ in range(nc)] for _ in range(nr)], dtype=float)
+        if dense.sum() == 0:
+            dense[rng.randrange(nr), rng.randrange(nc)] = 1
+        b = sparse.csr_matrix(dense)
+        plan.append({'kind': 'hits', 'shape': [nr, nc], 'graph': {'n': nr, 'indptr': [int(x) for x in b.indptr],
+                     'indices': [int(x) for x in b.indices], 'data': [float(x) for x in b.data]}})
+    return plan
+
+
+def rel_close(model, impl, tol):
+    return len(model) == len(impl) and all(abs(float(m) - i) <= tol * (1 + abs(float(m))) for m, i in zip(model, impl))
+
+
+def eval_other(ctx, plan):
+    from vlib.core import ToolFailure
+    res = run_jobs(ctx, plan, 1)
+    lines, meta = [], []
+    for job, r in zip(plan, res):
+        kind = job['kind']
+        g = job['graph']
+        sig = {'entry': {'katz': 'Katz', 'closeness': 'Closeness', 'betweenness': 'Betweenness', 'hits': 'HITS',
+                         'values': 'get_adjacency_values', 'push': 'push_pagerank'}[kind]}
+        if kind == 'betweenness':
+            sig['directed'] = bool(job['directed'])
+        impl_err = 'err ' + r['err'] if 'err' in r else None
+        if kind == 'katz':
+            gt = enc_graph(g)
+            run = 'c04.katz %s %s %d' % (gt, enc_rat(job['damping']), job['path_length'])
+            spec = None if impl_err else 'c04.spec_katz %s %s %d %s %s' % (gt, enc_rat(job['damping']), job['path_length'],
+                                                                             enc_ratlist(r['scores']), enc_rat(F64_TOL))
+            tol = F64_TOL
+        elif kind == 'values':
+            run = 'c04.values %d %s' % (g['n'], enc_weights(job['weights']))
+            spec = None
+            tol = 1e-12
+            if not impl_err:
+                r = dict(r)
+                r['scores'] = r['values']
+        elif kind == 'push':
+            if impl_err:
+                ctx.count('run:push:error')
+                continue
+            sig['line'] = 'run'
+            run = 'c04.push %s %s %s %s %s' % (enc_graph(g), enc_ratlist(r['deg']), enc_rat(float(np.float32(job['damping']))),
+                                               enc_ratlist(r['seeds']), enc_rat(float(np.float32(job['tol']))))
+            spec = None
+            tol = F32_TOL
+        elif kind == 'closeness':
+            gt = enc_graph(g)
+            run = 'c04.closeness %s' % gt
+            spec = None if impl_err else 'c04.spec_closeness %s %s %s' % (gt, enc_ratlist(r['scores']), enc_rat(F64_TOL))
+            tol = F64_TOL
+        elif kind == 'betweenness':
+            gt = enc_graph(g)
+            run = 'c04.betweenness %s' % gt
+            spec = None if impl_err else 'c04.spec_betweenness %s %d %s %s' % (gt, 1 if job['directed'] else 0,
+                                                                               enc_ratlist(r['scores']), enc_rat(F32_TOL))
+            tol = F32_TOL
+        else:  # hits
+            if impl_err:
+                ctx.spec_fail(sig, job, {'impl': impl_err, 'msg': r.get('msg')})
+                continue
+            gt = '%d %d %s %s %s' % (job['shape'][0], job['shape'][1], enc_natlist(g['indptr']), enc_natlist(g['indices']),
+                                     enc_ratlist(g['data']))
+            dense = sparse.csr_matrix((np.array(g['data']), np.array(g['indices']), np.array(g['indptr'])),
+                                      shape=tuple(job['shape'])).toarray()
+            sv = np.linalg.svd(dense, compute_uv=False)
+            gap = (sv[0] - (sv[1] if len(sv) > 1 else 0.0)) / sv[0]
+            # the sign choice and clipping, exactly, on the vectors the SVD solver returned
+            lines.append('c04.hits_post %s' % enc_ratlist(r['u']))
+            meta.append((job, r, sig, 'run', 'ok ' + enc_ratlist(r['row']), 0.0))
+            lines.append('c04.hits_post %s' % enc_ratlist(r['v']))
+            meta.append((job, r, sig, 'run', 'ok ' + enc_ratlist(r['col']), 0.0))
+            if gap < 1e-6:
+                ctx.count('tie-skipped:hits-degenerate-top-singular-value')
+            else:
+                lines.append('c04.spec_hits %s %s %s %s %s' % (gt, enc_ratlist(r['row']), enc_ratlist(r['col']),
+                                                               enc_rat(r['sigma']), enc_rat(1e-7)))
+                meta.append((job, r, sig, 'spec', None, 0.0))
+            continue
+        lines.append(run)
+        meta.append((job, r, sig, 'run', impl_err or r['scores'], tol))
+        if spec:
+            lines.append(spec)
+            meta.append((job, r, sig, 'spec', None, tol))
+    answers = ctx.lean(lines)
+    for ans, line, (job, r, sig, what, impl, tol) in zip(answers, lines, meta):
+        if ans.startswith('unknown-cmd') or ans == 'bad-args':
+            raise ToolFailure('driver rejected %r -> %r' % (line[:300], ans))
+        g = job['graph']
+        scores = r.get('scores') or r.get('row') or []
+        nontrivial = len(g['data']) > 0 and len(set(scores)) > 1
+        if what == 'spec':
+            ctx.case((job['kind'], 'spec', line), nontrivial, sample={'request': line[:400], 'answer': ans[:200]})
+            ctx.count('spec:' + job['kind'])
+            if ans != 'holds':
+                ctx.spec_fail(sig, job, {'spec_line': line, 'spec_answer': ans, 'impl': scores})
+            continue
+        ctx.case((job['kind'], 'run', line), nontrivial, sample={'request': line[:400], 'model': ans[:300], 'impl': impl})
+        ctx.count('run:' + job['kind'])
+        if isinstance(impl, str):
+            if impl.startswith('err'):
+                ctx.count('run:%s:error' % job['kind'])
+            if ans != impl:
+                if ans.startswith('ok ') and impl.startswith('ok ') and job['kind'] == 'hits':
+                    if [float(x) for x in dec_ratlist(ans[3:])] == [float(x) for x in dec_ratlist(impl[3:])]:
+                        continue          # -0.0 versus 0
+                ctx.disagree(sig, job, ans, impl, line)
+            continue
+        if not ans.startswith('ok '):
+            ctx.disagree(sig, job, ans, impl, line)
+            continue
+        model = dec_ratlist(ans[3:])
+        if any(math.isnan(v) for v in impl) or not rel_close(model, impl, tol):
+            ctx.disagree(sig, job, [float(m) for m in model], impl, line)
+
+
+# ------------------------------------------------------------------------------------------------
 # entry points
 # ------------------------------------------------------------------------------------------------
 def corpus_plan():
+    """(PageRank plan, other jobs) recorded in corpus/C04.jsonl: witnesses of repaired defects, replayed first."""
     p = os.path.join(os.path.dirname(os.path.dirname(os.path.dirname(os.path.abspath(__file__)))), 'corpus', 'C04.jsonl')
-    plan = []
+    plan, other = [], []
     if os.path.exists(p):
         for ln in open(p):
             ln = ln.strip()
             if ln and not ln.startswith('#'):
                 c = json.loads(ln)
-                plan.append({'job': c['job'], 'check': c.get('check', 'spec'), 'name': 'corpus', 'threads': c.get('threads')})
-    return plan
+                if c['job']['kind'] in ('pagerank', 'diffusion'):
+                    plan.append({'job': c['job'], 'check': c.get('check', 'spec'), 'name': 'corpus'})
+                else:
+                    other.append(c['job'])
+    return plan, other
+
+
+def _timed(ctx, name, f, *a):
+    import time
+    t = time.time()
+    f(*a)
+    ctx.extra.setdefault('phase_seconds', {})[name] = round(time.time() - t, 1)
 
 
 def run(ctx):
     threads = [1, 16] if ctx.quick else [1, 2, 4, 16]
     ctx.extra['tolerances'] = {'float64': F64_TOL, 'float32': F32_TOL, 'budget_eps': BUDGET_EPS}
     ctx.extra['threads_swept'] = threads
-    eval_pagerank(ctx, corpus_plan(), threads)
-    eval_pagerank(ctx, pagerank_plan(ctx), threads)
-    eval_pagerank(ctx, model_plan(ctx), threads)
+    cplan, cother = corpus_plan()
+    _timed(ctx, 'corpus', lambda: (eval_pagerank(ctx, cplan, threads), eval_other(ctx, cother)))
+    _timed(ctx, 'pagerank-spec', lambda: eval_pagerank(ctx, pagerank_plan(ctx), threads))
+    _timed(ctx, 'pagerank-model', lambda: eval_pagerank(ctx, model_plan(ctx), threads))
+    _timed(ctx, 'other', lambda: eval_other(ctx, other_plan(ctx)))
 
 
 def search(ctx, pending):
@@ -613,6 +875,8 @@ def replay(ctx, payload):
         t = case.get('threads', 1)
         check = 'spec' if (job['kind'] == 'pagerank' and job['n_iter'] >= iters_for(job['damping'])) else 'run'
         eval_pagerank(ctx, [{'job': job, 'check': check, 'name': 'replay'}], [t])
+    elif case.get('kind') in ('katz', 'closeness', 'betweenness', 'hits'):
+        eval_other(ctx, [case])
     else:
         run(ctx)
 
